@@ -465,9 +465,11 @@ func (h *Handler) HandleGetDirSize(ctx *Context, path string) (int64, error) {
 	// detach afero.Lstater interface to resolve symlinks in afero.Walk.
 	err = afero.Walk(&fsOnly{h.Fs}, path, func(path string, info fs.FileInfo, err error) error {
 		if err != nil {
-			// entry which can't be examined at all (broken symbolic link, too long path) has nothing to add,
+			// entry which can't be examined at all (symbolic link which doesn't resolve: missing target,
+			// link loop, target behind a regular file; too long path) has nothing to add,
 			// but any other error means that total size is unknown: it must not be reported as smaller one
-			if !errors.Is(err, fs.ErrNotExist) && !errors.Is(err, syscall.ENAMETOOLONG) {
+			if !errors.Is(err, fs.ErrNotExist) && !errors.Is(err, syscall.ENAMETOOLONG) &&
+				!errors.Is(err, syscall.ELOOP) && !errors.Is(err, syscall.ENOTDIR) {
 				return err
 			}
 
